@@ -1,7 +1,7 @@
-//@ assume: the index stream `idx.into_iter().filter(|&x| x < size).peekable()` is an abstract peekable cursor over a ghost sequence S (T6: that expression => `idx.filtered_cursor(size)`; peek / next have their std meaning); S is ASCENDING (precondition: the callers pass a bitmap's iterator / a sorted vector -- decided for Extension::apply_to_bitmap_accumulator in C15/apply_to_accumulator); BitmapChunk is its set of bits (set(i, true) inserts i < 1024, any() == non-empty); append_chunk appends one leaf (C15/accumulator_ops); `.expect("next after peek")` => `.unwrap()`; Instant::now() opaque; log macros removed (T3). sizes below 2^62 so that (chunk_idx + 1) * 1024 cannot overflow.
+//@ assume: the index stream `idx.into_iter().filter(|&x| x < size).peekable()` is an abstract peekable cursor over a ghost sequence S (T7: the filter closure `|&x| x < size` is lifted and verified (keeps exactly the indices below size), T6: the adaptor chain around it => `idx.filtered_cursor(size)`; peek / next have their std meaning); S is ASCENDING (precondition: the callers pass a bitmap's iterator / a sorted vector -- decided for Extension::apply_to_bitmap_accumulator in C15/apply_to_accumulator); BitmapChunk is its set of bits (set(i, true) inserts i < 1024, any() == non-empty); append_chunk appends one leaf (C15/accumulator_ops); `.expect("next after peek")` => `.unwrap()`; Instant::now() opaque; log macros removed (T3). sizes below 2^62 so that (chunk_idx + 1) * 1024 cannot overflow.
 //@ assume: decided here (C15, the from-scratch / rebuild core of the bitmap commitment, for ANY number of chunks and ANY index stream): BitmapAccumulator::apply_from(idx, from_idx, size) appends, after the leaves already there, exactly the chunks from_chunk, from_chunk + 1, ... of the bitmap S: the j-th appended chunk holds exactly the bits { x mod 1024 : x in S, x div 1024 = from_chunk + j } (empty interior chunks included), every x in S at or above the start chunk is covered, there is NO trailing empty chunk, and the loop terminates (no iteration without progress: it consumes an index or closes a chunk below the pending index). Together these determine the appended sequence uniquely: it is a function of (S, from_chunk) alone -- which is what makes init-from-scratch and apply-after-rewind agree chunk by chunk.
 //@ assumed_items: 8
-//@ fns: BitmapAccumulator::apply_from
+//@ fns: BitmapAccumulator::apply_from, BitmapAccumulator::apply_from (filter closure)
 pub enum Error { Other, Store }
 pub struct BitmapChunk { pub bits: Ghost<Set<int>> }
 impl BitmapChunk {
@@ -12,6 +12,7 @@ impl BitmapChunk {
     pub fn any(&self) -> (r: bool) ensures r == nonempty(*self) { unimplemented!() }
 }
 pub open spec fn nonempty(c: BitmapChunk) -> bool { exists|b: int| #[trigger] c.bits@.contains(b) }
+pub struct FilterLt { pub size: u64 }
 pub struct Instant;
 impl Instant { #[verifier::external_body] pub fn now() -> (r: Instant) { unimplemented!() } }
 pub struct Cur { pub items: Ghost<Seq<u64>>, pub pos: Ghost<nat> }
@@ -50,10 +51,18 @@ impl BitmapAccumulator {
     pub fn append_chunk(&mut self, chunk: BitmapChunk) -> (r: Result<u64, Error>)
         ensures r.is_ok() ==> final(self).backend.leaves@ == old(self).backend.leaves@.push(chunk), r.is_err() ==> final(self).backend.leaves@ == old(self).backend.leaves@ { unimplemented!() }
 //@ extract chain/src/txhashset/bitmap_accumulator.rs :: impl BitmapAccumulator::apply_from
+//@   eclosure 1 lifted_as `fn filter_below_size(xr: &u64, size: u64) -> bool`
+//@   at_start:
+//@+    let x = *xr; // the closure's pattern parameter `|&x|`
+//@   ensures:
+//@+    r == (*xr < size),
+//@ end
+//@ extract chain/src/txhashset/bitmap_accumulator.rs :: impl BitmapAccumulator::apply_from
 //@   strip_logs
 //@   sigrewrite `fn apply_from<T>(&mut self, idx: T, from_idx: u64, size: u64) -> Result<(), Error>` => `fn apply_from(&mut self, idx: IdxList, from_idx: u64, size: u64) -> Result<(), Error>`
 //@   sigrewrite `\tT: IntoIterator<Item = u64>,\n` => ``
-//@   rewrite `idx.into_iter().filter(|&x| x < size).peekable()` => `idx.filtered_cursor(size)`
+//@   eclosure 1 replaced_by `FilterLt { size }`
+//@   rewrite `idx.into_iter().filter(FilterLt { size }).peekable()` => `idx.filtered_cursor(size)` x?
 //@   rewrite `.expect("next after peek")` => `.unwrap()` x?
 //@   after `idx_iter.next();`:
 //@+    proof {
@@ -97,18 +106,14 @@ impl BitmapAccumulator {
 //@+            if bit_upto(s, c, p, b) { let i = choose|i: int| 0 <= i < p && i < s.len() && #[trigger] (s[i] / 1024) == c && s[i] % 1024 == b; assert((s[i] / 1024) <= c - 1); }
 //@+        }
 //@+    }
-//@   before `if chunk.any() {`:
-//@+    let ghost before2 = self.backend.leaves@;
 //@   before `\t\tOk(())\n\t}`:
 //@+    proof {
 //@+        let s = idx_iter.items@; let n0 = old(self).backend.leaves@.len() as int; let fc = from_chunk_idx as int; let c = chunk_idx as int; let now = self.backend.leaves@;
-//@+        assert(now.take(n0) =~= before2.take(n0));
 //@+        assert forall|j: int| 0 <= j < now.len() - n0 implies chunk_is(#[trigger] now[n0 + j], s, fc + j, s.len() as int) by {
-//@+            if j < c - fc { assert(now[n0 + j] == before2[n0 + j]); }
 //@+        }
 //@+        assert forall|i: int| 0 <= i < s.len() && s[i] / 1024 >= fc implies #[trigger] (s[i] / 1024) < fc + (now.len() - n0) by {
 //@+            assert((s[i] / 1024) <= c);
-//@+            if now.len() == before2.len() && (s[i] / 1024) == c { assert(bit_upto(s, c, s.len() as int, (s[i] % 1024) as int)); assert(chunk.bits@.contains((s[i] % 1024) as int)); }
+//@+            if now.len() == n0 + (c - fc) && (s[i] / 1024) == c { assert(bit_upto(s, c, s.len() as int, (s[i] % 1024) as int)); assert(chunk.bits@.contains((s[i] % 1024) as int)); }
 //@+        }
 //@+    }
 //@   requires:
